@@ -22,7 +22,7 @@ LEVEL = "exploration"
 TECHNIQUE = "bounded-exhaustive enumeration of model shapes x function-sharing patterns; generated MxlPy source is executed and the rebuilt model compared with the original"
 LEVEL_TEXT = (
     "Every model in the product of structural shapes (number of variables, 6 coefficient kinds, 5 derived shapes, "
-    "initial-assignment parameter, conditional/time-dependent rates) x 14 function-assignment patterns is passed to "
+    "initial-assignment parameter, conditional/time-dependent rates) x 17 function-assignment patterns (incl. many-digit, very small and large literal values) is passed to "
     "generate_mxlpy_code; the source is exec'd, create_model() called, and names/kinds, initial values, parameter "
     "values and (at 4 states x 2 times) derived values, fluxes and derivatives are compared with the original "
     "(rtol 1e-12; printed literals carry 15 digits). Untranslatable functions must make generation raise."
@@ -52,7 +52,7 @@ PATTERNS = [
     "own", "permuted-args", "repeated-arg-first", "repeated-arg-last", "same-name-first", "same-name-last",
     "same-name-derived", "own-parameter-names-swapped", "shared-ia-and-derived", "ia-variable", "unit-variable",
     "unit-parameter", "locals-and-conditionals", "untranslatable", "same-name-coinciding-specialisation",
-    "repeated-arg-same-specialisation",
+    "repeated-arg-same-specialisation", "hard-literals",
 ]
 STATES = c07.STATES
 TIMES = c07.TIMES
@@ -62,8 +62,11 @@ def build_model(case):
     from mxlpy import InitialAssignment, units
 
     shape = {"untouched": "no", "ptype": "float", "free": 0, "untr": 0, **{k: case[k] for k in ("nvars", "coef", "derived", "ia", "ct")}}
-    m = c07.build_model(shape)
     p = case["pattern"]
+    if p == "hard-literals":  # many-digit, very small and large parameter / initial values (and an integer-typed one)
+        shape["vals"] = "hard"
+        shape["ptype"] = "int" if case["nvars"] % 2 == 0 else "float"
+    m = c07.build_model(shape)
     if p == "permuted-args":
         m.add_derived("s1", F.sub2, args=["x1", "k1"])
         m.add_derived("s2", F.sub2, args=["k1", "x1"])
